@@ -221,7 +221,10 @@ def run_family(c, prop, mode, nscen, maxlen, followers, exhaustive=True):
         if mode == "C20":
             steps = steps + c20_epilogue(steps, i)
             cfg["noPrecompiles"] = i % 3 == 2 and i % 6 != 5
-        if mode == "C15" and i % 6 == 5:
+        if mode == "C15" and i % 6 == 5 and "genesisTime" not in cfg:
+            # (only on the scripted clock: the handler was written for its own date - on a chain whose clock is past
+            # 2025-12-31 its FixLockupPeriods rewrites every vesting account and divides by the number of lockup periods
+            # still ahead, which is zero for an account whose lockup is over; that is outside what the handler is for)
             steps = steps + c15_epilogue(steps, i)
         full.append({"cfg": cfg, "steps": steps})
     outs = [None] * len(full)
